@@ -154,16 +154,41 @@ theorem callMeta_lower (now : Int) (loc : Option Addr) (src : Addr) :
 theorem callMeta_nodup (now : Int) (loc : Option Addr) (src : Addr) :
     (keys (callMeta now loc src)).Nodup := by rw [callMeta_keys]; decide
 
-/-- the decoded header map is in simulation with "sent items, then extras, then call metadata"
+/-- overlaying a dict with lower-case, unique keys: its entries win, the rest shows through -/
+theorem lookup_writeAll_lower (m : SMap Bytes Val) (E : PyDict Bytes Val) (hn : (keys E).Nodup)
+    (hl : ∀ p ∈ E, lower p.1 = p.1) (x : Bytes) :
+    (get? (SMap.writeAll lower m E) x).map (·.2) = (get? E x).or ((get? m x).map (·.2)) := by
+  have hk : keys (E.map fun p => (lower p.1, (p.1, p.2))) = keys E := by
+    simp only [keys, List.map_map]
+    apply List.map_congr_left
+    intro p hp; exact hl p hp
+  rw [writeAll_eq_overlay, get?_overlay _ _ (by rw [hk]; exact hn)]
+  have : (get? (E.map fun p => (lower p.1, (p.1, p.2))) x).map (·.2) = get? E x := by
+    clear hk hn
+    induction E with
+    | nil => rfl
+    | cons p r ih =>
+      have hp := hl p (by simp)
+      have := ih (fun q hq => hl q (List.mem_cons_of_mem _ hq))
+      by_cases e : p.1 = x
+      · subst e; simp [get?, hp]
+      · simp [get?, hp, e, this]
+  rw [← this]
+  cases get? (E.map fun p => (lower p.1, (p.1, p.2))) x <;> rfl
+
+/-- the decoded header map is in simulation with "received items, then own data, then call metadata"
     written in this order into the abstract map of C16 -/
-theorem sim_decoded (D : PyDict Bytes Val) (hD : (keys D).Nodup) (now : Int) (loc : Option Addr) (src : Addr) :
-    Sim lower (combineLower (ofDict lower D) (callMeta now loc src))
-      (SMap.writeAll lower (SMap.writeAll lower [] D) (callMeta now loc src)) := by
+theorem sim_decoded (D : PyDict Bytes Val) (hD : (keys D).Nodup) (E : PyDict Bytes Val) (hn : (keys E).Nodup)
+    (hl : ∀ p ∈ E, lower p.1 = p.1) (now : Int) (loc : Option Addr) (src : Addr) :
+    Sim lower (combineLower (combineLower (ofDict lower D) E) (callMeta now loc src))
+      (SMap.writeAll lower (SMap.writeAll lower (SMap.writeAll lower [] D) E) (callMeta now loc src)) := by
   have h0 := sim_ofDict lower D
   rw [ofList_nodup D hD] at h0
-  have h1 := sim_combineLower lower h0 (callMeta now loc src) (callMeta_lower now loc src)
-  rw [ofList_nodup _ (callMeta_nodup now loc src)] at h1
-  exact h1
+  have h1 := sim_combineLower lower h0 E hl
+  rw [ofList_nodup _ hn] at h1
+  have h2 := sim_combineLower lower h1 (callMeta now loc src) (callMeta_lower now loc src)
+  rw [ofList_nodup _ (callMeta_nodup now loc src)] at h2
+  exact h2
 
 theorem get?_writeAll_nil_last (D : PyDict Bytes Val) (x : Bytes) :
     (get? (SMap.writeAll lower [] D) x).map (·.2) = lastCI D x := by
@@ -171,32 +196,17 @@ theorem get?_writeAll_nil_last (D : PyDict Bytes Val) (x : Bytes) :
   unfold lastCI
   cases D.reverse.find? (fun p => decide (lower p.1 = x)) <;> rfl
 
-theorem getitem_decoded (D : PyDict Bytes Val) (hD : (keys D).Nodup) (now : Int) (loc : Option Addr)
-    (src : Addr) (k : Bytes) :
-    getitem lower (combineLower (ofDict lower D) (callMeta now loc src)) k
-      = (get? (callMeta now loc src) (lower k)).or (lastCI D (lower k)) := by
-  have hs := sim_decoded D hD now loc src
+/-- a look-up in the decoded map: call metadata first, then the decoder's own data, then the last
+    received entry with that folded name -/
+theorem getitem_decoded (D : PyDict Bytes Val) (hD : (keys D).Nodup) (E : PyDict Bytes Val) (hn : (keys E).Nodup)
+    (hl : ∀ p ∈ E, lower p.1 = p.1) (now : Int) (loc : Option Addr) (src : Addr) (k : Bytes) :
+    getitem lower (combineLower (combineLower (ofDict lower D) E) (callMeta now loc src)) k
+      = (get? (callMeta now loc src) (lower k)).or ((get? E (lower k)).or (lastCI D (lower k))) := by
+  have hs := sim_decoded D hD E hn hl now loc src
   rw [getitem_abs lower hs.inv]
   unfold SMap.lookup
-  rw [hs.same, writeAll_eq_overlay, get?_overlay _ _ (by
-    have : keys ((callMeta now loc src).map fun p => (lower p.1, (p.1, p.2))) = keys (callMeta now loc src) := by
-      simp only [keys, List.map_map]
-      apply List.map_congr_left
-      intro p hp; exact callMeta_lower now loc src p hp
-    rw [this]; exact callMeta_nodup now loc src)]
-  rw [← get?_writeAll_nil_last]
-  have hk : lower kTimestamp = kTimestamp ∧ lower kRemote = kRemote ∧ lower kPort = kPort ∧ lower kLocal = kLocal := by decide
-  generalize get? (SMap.writeAll lower [] D) (lower k) = r
-  simp only [callMeta, List.map_cons, List.map_nil, hk.1, hk.2.1, hk.2.2.1, hk.2.2.2, get?]
-  by_cases h1 : kTimestamp = lower k
-  · simp [h1]
-  · by_cases h2 : kRemote = lower k
-    · simp [h1, h2]
-    · by_cases h3 : kPort = lower k
-      · simp [h1, h2, h3]
-      · by_cases h4 : kLocal = lower k
-        · simp [h1, h2, h3, h4]
-        · simp [h1, h2, h3, h4]
+  rw [hs.same, lookup_writeAll_lower _ _ (callMeta_nodup now loc src) (callMeta_lower now loc src),
+    lookup_writeAll_lower _ _ hn hl, get?_writeAll_nil_last]
 
 /-! ### the `extra` dict -/
 
@@ -242,22 +252,11 @@ theorem extras_nodup (hs : List (Bytes × Bytes)) (udn : Option Bytes) (a0 : Add
   rw [extras_eq]
   cases udn <;> by_cases hw : allPyWs (locOf hs) = true <;> simp [keys, hw, udnPart, h1, h2, h3, h4, h5, h6]
 
-/-! ### the merged dict `{**sent, **extra}` -/
+/-! ### the received items of a well-formed header list -/
 
-/-- `{**parsed_headers, **extra}` for a well-formed header list -/
-def mergedOf (hs : List (Bytes × Bytes)) (udn : Option Bytes) (a0 : Addr) : PyDict Bytes Val :=
-  PyDict.merge (hsV hs) (extras hs udn a0)
-
-section merged
-variable {hs : List (Bytes × Bytes)} (hd : distinctCI (hs.map (·.1)) = true) (udn : Option Bytes) (a0 : Addr)
+section sent
+variable {hs : List (Bytes × Bytes)} (hd : distinctCI (hs.map (·.1)) = true)
 include hd
-
-theorem merged_nodup : (keys (mergedOf hs udn a0)).Nodup :=
-  nodup_keys_merge _ _ (nodup_hsV hd)
-
-theorem merged_get? (k : Bytes) :
-    get? (mergedOf hs udn a0) k = (get? (extras hs udn a0) k).or (get? (hsV hs) k) :=
-  get?_merge_nodup _ _ (extras_nodup hs udn a0) k
 
 theorem hsV_get? {p : Bytes × Bytes} (hp : p ∈ hs) : get? (hsV hs) p.1 = some (Val.str p.2) :=
   get?_of_mem_nodup (nodup_hsV hd) (List.mem_map.mpr ⟨p, hp, rfl⟩)
@@ -268,132 +267,30 @@ theorem hsV_mem {k : Bytes} {v : Val} (h : (k, v) ∈ hsV hs) : ∃ p ∈ hs, p.
   simp only [Prod.mk.injEq] at e
   exact ⟨p, hp, e.1, e.2.symm⟩
 
-/-- an entry of the merged dict comes from the extras (lower-case key) or from the sent headers -/
-theorem merged_mem {q : Bytes × Val} (hq : q ∈ mergedOf hs udn a0) :
-    (q.1 ∈ keys (extras hs udn a0) ∧ get? (extras hs udn a0) q.1 = some q.2)
-    ∨ (q.1 ∉ keys (extras hs udn a0) ∧ ∃ p ∈ hs, p.1 = q.1 ∧ q.2 = Val.str p.2) := by
-  have hg := (mem_iff_get? (merged_nodup hd udn a0) q.1 q.2).mp hq
-  rw [merged_get? hd] at hg
-  cases he : get? (extras hs udn a0) q.1 with
-  | some v =>
-    left
-    rw [he] at hg
-    simp only [Option.some_or, Option.some.injEq] at hg
-    exact ⟨(get?_isSome_iff _ _).mp (by simp [he]), by rw [← hg]⟩
-  | none =>
-    right
-    rw [he] at hg
-    simp only [Option.none_or] at hg
-    exact ⟨(get?_eq_none_iff _ _).mp he, hsV_mem (mem_of_get? hg)⟩
-
-/-- A': a sent name whose folded form is not a key of the extras is found with its sent value -/
-theorem lastCI_sent {p : Bytes × Bytes} (hp : p ∈ hs) (hx : lower p.1 ∉ keys (extras hs udn a0)) :
-    lastCI (mergedOf hs udn a0) (lower p.1) = some (Val.str p.2) := by
-  have hpk : p.1 ∉ keys (extras hs udn a0) := by
-    intro e
-    have := (extras_keys hs udn a0 p.1 e).1
-    rw [this] at hx; exact hx e
+/-- a sent name is found, by its folded form, with its sent value -/
+theorem lastCI_sent {p : Bytes × Bytes} (hp : p ∈ hs) : lastCI (hsV hs) (lower p.1) = some (Val.str p.2) := by
   unfold lastCI
   rw [find?_reverse_unique _ _ (p.1, Val.str p.2)]
   · rfl
-  · apply (mem_iff_get? (merged_nodup hd udn a0) _ _).mpr
-    rw [merged_get? hd, (get?_eq_none_iff _ _).mpr hpk, hsV_get? hd hp]; rfl
+  · exact List.mem_map.mpr ⟨p, hp, rfl⟩
   · simp
   · intro q hq hP
     have hl : lower q.1 = lower p.1 := by simpa using hP
-    rcases merged_mem hd udn a0 hq with ⟨hk, _⟩ | ⟨_, p', hp', e1, e2⟩
-    · have := (extras_keys hs udn a0 q.1 hk).1
-      rw [this] at hl; rw [hl] at hk; exact absurd hk hx
-    · have : p' = p := ci_unique hd hp' hp (by rw [e1]; exact hl)
-      subst this
-      exact Prod.ext e1.symm e2
-
-/-- B': a folded name no sent header has is answered by the extras alone -/
-theorem lastCI_extra (x : Bytes) (hx : ∀ p ∈ hs, lower p.1 ≠ x) :
-    lastCI (mergedOf hs udn a0) x = get? (extras hs udn a0) x := by
-  unfold lastCI
-  have key : ∀ q ∈ mergedOf hs udn a0, lower q.1 = x → q.1 = x ∧ get? (extras hs udn a0) x = some q.2 := by
-    intro q hq hl
-    rcases merged_mem hd udn a0 hq with ⟨hk, hg⟩ | ⟨_, p', hp', e1, _⟩
-    · have := (extras_keys hs udn a0 q.1 hk).1
-      rw [this] at hl; subst hl; exact ⟨rfl, hg⟩
-    · exact absurd (by rw [e1]; exact hl) (hx p' hp')
-  cases he : get? (extras hs udn a0) x with
-  | none =>
-    rw [find?_reverse_none]; · rfl
-    intro q hq
-    simp only [decide_eq_false_iff_not]
-    intro hl
-    have := (key q hq hl).2
-    rw [he] at this; cases this
-  | some v =>
-    rw [find?_reverse_unique _ _ (x, v)]
-    · rfl
-    · apply (mem_iff_get? (merged_nodup hd udn a0) _ _).mpr
-      rw [merged_get? hd, he]; rfl
-    · have := (extras_keys hs udn a0 x ((get?_isSome_iff _ _).mp (by simp [he]))).1
-      simp [this]
-    · intro q hq hP
-      have hl : lower q.1 = x := by simpa using hP
-      obtain ⟨e1, e2⟩ := key q hq hl
-      rw [he] at e2
-      exact Prod.ext e1 (by simpa using e2.symm)
+    obtain ⟨p', hp', e1, e2⟩ := hsV_mem (k := q.1) (v := q.2) hq
+    have : p' = p := ci_unique hd hp' hp (by rw [e1]; exact hl)
+    subst this
+    exact Prod.ext e1.symm e2
 
 omit hd in
-theorem merge_snoc (a e' : PyDict Bytes Val) (k : Bytes) (v : Val) :
-    PyDict.merge a (e' ++ [(k, v)]) = PyDict.set (PyDict.merge a e') k v := by
-  unfold PyDict.merge; rw [List.foldl_append]; rfl
-
-/-- C: a sent `location` (any spelling) with non-blank text is answered by the adjusted URL -/
-theorem lastCI_location {p : Bytes × Bytes} (hp : p ∈ hs) (hl : lower p.1 = kLocation)
-    (hw : allPyWs p.2 = false) :
-    lastCI (mergedOf hs udn a0) kLocation = some (adjVal p.2 a0) := by
-  have hloc : locOf hs = p.2 := by unfold locOf; rw [← hl, mdGet_wf hd hp]; rfl
-  obtain ⟨h1, h2, h3, h4, h5, h6⟩ := key_ne
-  have hE : get? (extras hs udn a0) kLocation = some (adjVal p.2 a0) := by
-    rw [extras_eq, hloc]
-    cases udn <;> simp [hw, get?, udnPart, h3, h5, h6]
+/-- a folded name no sent header has is not found among the received items -/
+theorem lastCI_none (x : Bytes) (hx : ∀ p ∈ hs, lower p.1 ≠ x) : lastCI (hsV hs) x = none := by
   unfold lastCI
-  by_cases hk : p.1 = kLocation
-  · -- the sent spelling is exactly `location`: one entry, overwritten in place
-    rw [find?_reverse_unique _ _ (kLocation, adjVal p.2 a0)]
-    · rfl
-    · apply (mem_iff_get? (merged_nodup hd udn a0) _ _).mpr
-      rw [merged_get? hd, hE]; rfl
-    · simp [key_lower.2.2.2]
-    · intro q hq hP
-      have hlq : lower q.1 = kLocation := by simpa using hP
-      have hq1 : q.1 = kLocation := by
-        rcases merged_mem hd udn a0 hq with ⟨hkq, _⟩ | ⟨_, p', hp', e1, _⟩
-        · have := (extras_keys hs udn a0 q.1 hkq).1
-          rw [this] at hlq; exact hlq
-        · have : p' = p := ci_unique hd hp' hp (by rw [e1, hlq, hl])
-          subst this; rw [← e1]; exact hk
-      have hg := (mem_iff_get? (merged_nodup hd udn a0) q.1 q.2).mp hq
-      rw [hq1, merged_get? hd, hE] at hg
-      simp only [Option.some_or, Option.some.injEq] at hg
-      exact Prod.ext hq1 hg.symm
-  · -- another spelling: the extras' `location` entry is appended last
-    have hnV : kLocation ∉ keys (hsV hs) := by
-      rw [keys_hsV]
-      intro e
-      obtain ⟨p', hp', e1⟩ := List.mem_map.mp e
-      have : p' = p := ci_unique hd hp' hp (by rw [e1, hl]; exact key_lower.2.2.2)
-      subst this; exact hk e1
-    have hsplit : extras hs udn a0 =
-        ((kHost, Val.str (hostString a0)) :: (udnPart udn
-          ++ [(kLocOrig, Val.str p.2)])) ++ [(kLocation, adjVal p.2 a0)] := by
-      rw [extras_eq, hloc]; simp [hw]
-    have hnE : kLocation ∉ keys ((kHost, Val.str (hostString a0)) ::
-        (udnPart udn ++ [(kLocOrig, Val.str p.2)])) := by
-      cases udn <;> simp [keys, udnPart, Ne.symm h3, Ne.symm h5, Ne.symm h6]
-    unfold mergedOf
-    rw [hsplit, merge_snoc, set_not_mem _ _ _ (by
-      rw [mem_keys_merge]; exact fun e => e.elim hnV hnE)]
-    rw [find?_reverse_last _ _ _ (by simp [key_lower.2.2.2])]
-    rfl
+  rw [find?_reverse_none]; · rfl
+  intro q hq
+  obtain ⟨p', hp', e1, _⟩ := hsV_mem (k := q.1) (v := q.2) hq
+  simpa [← e1] using hx p' hp'
 
-end merged
+end sent
 
 /-! ### the decoded map of a well-formed message -/
 
@@ -412,9 +309,25 @@ theorem meta_ne : kHost ≠ kTimestamp ∧ kHost ≠ kRemote ∧ kHost ≠ kPort
     ∧ kLocation ≠ kTimestamp ∧ kLocation ≠ kRemote ∧ kLocation ≠ kPort ∧ kLocation ≠ kLocal
     ∧ kTimestamp ≠ kRemote ∧ kTimestamp ≠ kPort ∧ kRemote ≠ kPort := by decide
 
+theorem extras_lower (hs : List (Bytes × Bytes)) (udn : Option Bytes) (a0 : Addr) :
+    ∀ p ∈ extras hs udn a0, lower p.1 = p.1 := fun p hp =>
+  (extras_keys hs udn a0 p.1 (List.mem_map_of_mem (f := (·.1)) hp)).1
+
+/-- look-ups in ANY decoded map (any received pairs): call metadata, then own data, then received -/
+theorem headers_get (pairs : List (Bytes × Bytes)) (udn : Option Bytes) (a0 : Addr) (now : Int) (loc : Option Addr)
+    (src : Addr) (k : Bytes) :
+    getitem lower (combineLower (headersOf pairs udn a0) (callMeta now loc src)) k
+      = (get? (callMeta now loc src) (lower k)).or
+          ((get? (extras pairs udn a0) (lower k)).or (lastCI (mdToDict pairs) (lower k))) :=
+  getitem_decoded _ (nodup_keys_ofList _) _ (extras_nodup pairs udn a0) (extras_lower pairs udn a0) now loc src k
+
+theorem headers_inv (pairs : List (Bytes × Bytes)) (udn : Option Bytes) (a0 : Addr) (now : Int) (loc : Option Addr)
+    (src : Addr) : Inv lower (combineLower (headersOf pairs udn a0) (callMeta now loc src)) :=
+  (sim_decoded _ (nodup_keys_ofList _) _ (extras_nodup pairs udn a0) (extras_lower pairs udn a0) now loc src).inv
+
 /-- the header map `decode` returns for a well-formed built message (see `decode_build_wire`) -/
 def decoded (hs : List (Bytes × Bytes)) (loc : Option Addr) (src : Addr) (now : Int) : Hdrs :=
-  combineLower (ofDict lower (mergedOf hs (udnOf hs) (withoutPort src))) (callMeta now loc src)
+  combineLower (headersOf hs (udnOf hs) (withoutPort src)) (callMeta now loc src)
 
 section decoded
 variable {hs : List (Bytes × Bytes)} (hd : distinctCI (hs.map (·.1)) = true)
@@ -423,16 +336,20 @@ include hd
 
 theorem decoded_get (k : Bytes) :
     getitem lower (decoded hs loc src now) k
-      = (get? (callMeta now loc src) (lower k)).or (lastCI (mergedOf hs (udnOf hs) (withoutPort src)) (lower k)) :=
-  getitem_decoded _ (merged_nodup hd _ _) now loc src k
+      = (get? (callMeta now loc src) (lower k)).or
+          ((get? (extras hs (udnOf hs) (withoutPort src)) (lower k)).or (lastCI (hsV hs) (lower k))) := by
+  unfold decoded
+  rw [headers_get, mdToDict_wf hd]
 
-theorem decoded_inv : Inv lower (decoded hs loc src now) :=
-  (sim_decoded _ (merged_nodup hd _ _) now loc src).inv
+theorem decoded_inv : Inv lower (decoded hs loc src now) := by
+  have _ := hd
+  exact headers_inv _ _ _ _ _ _
 
 include hr
 
 theorem not_extra_key {p : Bytes × Bytes} (hp : p ∈ hs) (hl : lower p.1 ≠ kLocation) (udn : Option Bytes) (a0 : Addr) :
-    lower p.1 ∉ keys (extras hs udn a0) := by
+    get? (extras hs udn a0) (lower p.1) = none := by
+  rw [get?_eq_none_iff]
   intro e
   obtain ⟨a, b, c, _⟩ := hr p hp
   rcases (extras_keys hs udn a0 _ e).2 with h | h | h | h
@@ -445,8 +362,7 @@ theorem not_extra_key {p : Bytes × Bytes} (hp : p ∈ hs) (hl : lower p.1 ≠ k
 theorem decoded_sent {p : Bytes × Bytes} (hp : p ∈ hs) (hl : lower p.1 ≠ kLocation) (k : Bytes)
     (hk : lower k = lower p.1) : getitem lower (decoded hs loc src now) k = some (Val.str p.2) := by
   obtain ⟨_, _, _, d, e, f, g⟩ := hr p hp
-  rw [decoded_get hd, hk, callMeta_get?_none _ _ _ _ ⟨d, e, f, g⟩,
-    lastCI_sent hd _ _ hp (not_extra_key hd hr hp hl _ _)]
+  rw [decoded_get hd, hk, callMeta_get?_none _ _ _ _ ⟨d, e, f, g⟩, not_extra_key hd hr hp hl, lastCI_sent hd hp]
   rfl
 
 /-- a sent `location` whose text is blank stays as sent -/
@@ -455,12 +371,12 @@ theorem decoded_location_blank {p : Bytes × Bytes} (hp : p ∈ hs) (hl : lower 
     getitem lower (decoded hs loc src now) k = some (Val.str p.2) := by
   obtain ⟨_, _, _, _, _, _, _, _, _, _, _, _, m1, m2, m3, m4, _⟩ := meta_ne
   have hloc : locOf hs = p.2 := by unfold locOf; rw [← hl, mdGet_wf hd hp]; rfl
-  rw [decoded_get hd, hk, callMeta_get?_none _ _ _ _ ⟨m1, m2, m3, m4⟩, ← hl,
-    lastCI_sent hd _ _ hp]
-  · rfl
-  · rw [hl, extras_eq, hloc]
+  have hE : get? (extras hs (udnOf hs) (withoutPort src)) kLocation = none := by
+    rw [extras_eq, hloc]
     obtain ⟨_, _, h3, _, h5, _⟩ := key_ne
-    cases udnOf hs <;> simp [keys, hw, udnPart, Ne.symm h3, Ne.symm h5]
+    cases udnOf hs <;> simp [get?, hw, udnPart, h3, h5]
+  rw [decoded_get hd, hk, callMeta_get?_none _ _ _ _ ⟨m1, m2, m3, m4⟩, hE, ← hl, lastCI_sent hd hp]
+  rfl
 
 /-- a sent `location` with text comes back adjusted, the sent text under `_location_original` -/
 theorem decoded_location {p : Bytes × Bytes} (hp : p ∈ hs) (hl : lower p.1 = kLocation)
@@ -468,22 +384,21 @@ theorem decoded_location {p : Bytes × Bytes} (hp : p ∈ hs) (hl : lower p.1 = 
     (∀ k, lower k = kLocation → getitem lower (decoded hs loc src now) k = some (adjVal p.2 (withoutPort src)))
     ∧ (∀ k, lower k = kLocOrig → getitem lower (decoded hs loc src now) k = some (Val.str p.2)) := by
   obtain ⟨_, _, _, _, _, _, _, _, n1, n2, n3, n4, m1, m2, m3, m4, _⟩ := meta_ne
+  obtain ⟨_, h2, h3, h4, h5, h6⟩ := key_ne
   have hloc : locOf hs = p.2 := by unfold locOf; rw [← hl, mdGet_wf hd hp]; rfl
   constructor
   · intro k hk
-    rw [decoded_get hd, hk, callMeta_get?_none _ _ _ _ ⟨m1, m2, m3, m4⟩, lastCI_location hd _ _ hp hl hw]
-    rfl
+    rw [decoded_get hd, hk, callMeta_get?_none _ _ _ _ ⟨m1, m2, m3, m4⟩, extras_eq, hloc]
+    cases udnOf hs <;> simp [hw, get?, udnPart, h3, h5, h6]
   · intro k hk
-    rw [decoded_get hd, hk, callMeta_get?_none _ _ _ _ ⟨n1, n2, n3, n4⟩,
-      lastCI_extra hd _ _ kLocOrig (fun q hq => (hr q hq).2.2.1), extras_eq, hloc]
-    obtain ⟨_, h2, _, h4, _, h6⟩ := key_ne
+    rw [decoded_get hd, hk, callMeta_get?_none _ _ _ _ ⟨n1, n2, n3, n4⟩, extras_eq, hloc]
     cases udnOf hs <;> simp [hw, get?, udnPart, h2, h4, h6]
 
+omit hr in
 theorem decoded_host (k : Bytes) (hk : lower k = kHost) :
     getitem lower (decoded hs loc src now) k = some (Val.str (hostString src)) := by
   obtain ⟨a, b, c, d, _⟩ := meta_ne
-  rw [decoded_get hd, hk, callMeta_get?_none _ _ _ _ ⟨a, b, c, d⟩,
-    lastCI_extra hd _ _ kHost (fun q hq => (hr q hq).1), extras_eq]
+  rw [decoded_get hd, hk, callMeta_get?_none _ _ _ _ ⟨a, b, c, d⟩, extras_eq]
   simp [get?]; rfl
 
 theorem decoded_udn (k : Bytes) (hk : lower k = kUdn) :
@@ -491,9 +406,13 @@ theorem decoded_udn (k : Bytes) (hk : lower k = kUdn) :
   obtain ⟨_, _, _, _, a, b, c, d, _⟩ := meta_ne
   obtain ⟨h1, _, _, h4, h5, _⟩ := key_ne
   rw [decoded_get hd, hk, callMeta_get?_none _ _ _ _ ⟨a, b, c, d⟩,
-    lastCI_extra hd _ _ kUdn (fun q hq => (hr q hq).2.1), extras_eq]
-  cases udnOf hs <;> by_cases hw : allPyWs (locOf hs) = true <;>
-    simp [get?, udnPart, hw, h1, Ne.symm h4, Ne.symm h5]
+    lastCI_none kUdn (fun q hq => (hr q hq).2.1), extras_eq]
+  cases hu : udnOf hs with
+  | some u => simp [get?, udnPart, h1]
+  | none =>
+    -- no own `_udn`: a received header of that name would show through; well-formed lists have none
+    by_cases hw : allPyWs (locOf hs) = true <;>
+      simp [get?, udnPart, hw, h1, Ne.symm h4, Ne.symm h5]
 
 omit hr in
 theorem decoded_port (k : Bytes) (hk : lower k = kPort) :
@@ -547,18 +466,22 @@ theorem decoded_names_sub {n : Bytes} (h : n ∈ iter (decoded hs loc src now)) 
     rcases this with e | e | e | e <;> simp [e]
   | none =>
     rw [hm] at hsome
-    simp only [Option.none_or, lastCI, Option.isSome_map] at hsome
-    obtain ⟨q, hq⟩ := Option.isSome_iff_exists.mp hsome
-    have hqm : q ∈ mergedOf hs (udnOf hs) (withoutPort src) := by
-      simpa using List.mem_of_find?_eq_some hq
-    have hql : lower q.1 = lower n := by simpa using List.find?_some hq
-    rcases merged_mem hd _ _ hqm with ⟨hk, _⟩ | ⟨_, p', hp', e1, _⟩
-    · right
-      obtain ⟨l1, l2⟩ := extras_keys hs _ _ q.1 hk
-      rw [l1] at hql; rw [← hql]
+    simp only [Option.none_or] at hsome
+    cases he : get? (extras hs (udnOf hs) (withoutPort src)) (lower n) with
+    | some v =>
+      right
+      have hk := (get?_isSome_iff _ _).mp (by simp [he] : (get? (extras hs (udnOf hs) (withoutPort src)) (lower n)).isSome)
+      obtain ⟨_, l2⟩ := extras_keys hs _ _ _ hk
       simp only [List.mem_cons, List.not_mem_nil, or_false]
       rcases l2 with e | e | e | e <;> simp [e]
-    · left
+    | none =>
+      left
+      rw [he] at hsome
+      simp only [Option.none_or, lastCI, Option.isSome_map] at hsome
+      obtain ⟨q, hq⟩ := Option.isSome_iff_exists.mp hsome
+      have hqm : q ∈ hsV hs := by simpa using List.mem_of_find?_eq_some hq
+      have hql : lower q.1 = lower n := by simpa using List.find?_some hq
+      obtain ⟨p', hp', e1, _⟩ := hsV_mem (k := q.1) (v := q.2) hqm
       exact List.mem_map.mpr ⟨p', hp', by rw [e1]; exact hql⟩
 
 /-- every sent name is a name of the decoded map (in some spelling) -/
